@@ -147,7 +147,21 @@ func c04bind(args []string) {
 			for ci := range st.Calls {
 				sp, as := callText(ci)
 				h.Eval(s, fmt.Sprintf("(defun %s-old%d () (%s%s%s))", fl, ci, fl, sp, as))
+				// ... and used once with it (whatever comes of it): anything a first call leaves behind belongs to the old definition
+				h.Eval(s, fmt.Sprintf("(%s-old%d)", fl, ci))
 			}
+		}
+		// a third copy of the function is called, by one caller per call, before it exists; the callers are used once (the
+		// function is undefined), then it is defined and the callers are used again
+		ff := fmt.Sprintf("vff-%d", st.ID)
+		for ci := range st.Calls {
+			sp, as := callText(ci)
+			h.Eval(s, fmt.Sprintf("(defun %s-fwd%d () (%s%s%s))", ff, ci, ff, sp, as))
+			h.Eval(s, fmt.Sprintf("(%s-fwd%d)", ff, ci))
+		}
+		{
+			text, names := c04LambdaList(st.LL)
+			defst += h.Eval(s, fmt.Sprintf("(defun %s (%s) (list %s))", ff, text, strings.Join(names, " "))).Class
 		}
 		defst += define(st.LL)
 		res := []any{}
@@ -158,6 +172,7 @@ func c04bind(args []string) {
 				"funcall": cell(h.Eval(s, fmt.Sprintf("(funcall #'%s%s%s)", fl, sp, as))),
 				"apply":   cell(h.Eval(s, fmt.Sprintf("(apply #'%s (list%s%s))", fl, sp, as))),
 				"const":   cell(h.Eval(s, fmt.Sprintf("(%s%s%s)", fc, sp, as))),
+				"fwd":     cell(h.Eval(s, fmt.Sprintf("(%s-fwd%d)", ff, ci))),
 			}
 			if st.Prev != nil {
 				// a call site written before the redefinition and one compiled fresh inside a new function
